@@ -324,7 +324,6 @@ func runNAVCOMMIT(c *Ctx) {
 }
 
 var reIdx = regexp.MustCompile(`\[[^\[\]]*\]`)
-var reSSAReg = regexp.MustCompile(`^t[0-9]+$`)
 
 // locKey normalises a location path for comparing "the same field of the
 // same object" regardless of the index expression used to reach it.
@@ -739,13 +738,14 @@ func failSources(c *Ctx, ci ssa.CallInstruction, seen map[*ssa.Function]bool, d 
 	callees := c.Facts.Callees(ci)
 	switch {
 	case strings.HasPrefix(ext, "callback:"):
-		name := strings.TrimPrefix(strings.TrimPrefix(ext, "callback:"), "param ")
-		if reSSAReg.MatchString(name) {
-			name = "(a function value)"
-		}
-		out["callback "+name] = true
+		// which callback it is depends on how the helpers name their parameters: one class
+		out["a user callback (key order, layer function, marshaler)"] = true
 	case len(callees) == 0 && ext != "":
-		out[strings.TrimPrefix(ext, "ext:")] = true
+		if strings.HasPrefix(ext, "Persist.") {
+			out["the store"] = true
+		} else {
+			out[strings.TrimPrefix(ext, "ext:")] = true
+		}
 	}
 	for _, f := range callees {
 		if seen[f] || !c.Facts.MayFail[f] || d > 8 {
